@@ -246,7 +246,7 @@ fn gen_lenient(tape: Vec<u8>) -> LenientCase {
             let extras: [(&str, J); 8] = [
                 ("from", J::Str("0x90f8bf6a479f320ead074411a4b0e7944ea8c9c1".into())),
                 ("hash", J::Str(format!("0x{}", "ab".repeat(32)))),
-                ("type", J::Str(["0x0", "0x1", "0x2"][u.below(3)].into())),
+                ("type", [J::Str("0x0".into()), J::Str("0x1".into()), J::Str("0x2".into()), J::Str("0x3".into()), J::Str("0x4".into()), J::Str("0x7e".into()), J::Str("0xff".into()), J::Num("3".into()), J::Num("2".into()), J::Null, J::Str("blob".into())][u.below(11)].clone()),
                 ("input", J::Str("0xdeadbeef".into())),
                 ("v", J::Str("0x1b".into())),
                 ("r", J::Str("0x1".into())),
